@@ -534,7 +534,7 @@ pub struct OrdExec<C: OrdColl> {
 
 impl<C: OrdColl> OrdExec<C> {
     pub fn new(hint: usize, uni: (i32, i32)) -> Self {
-        OrdExec { sut: C::make(hint), model: BTreeMap::new(), held: Vec::new(), next_id: 1, hint, uni, peak: 0, last_buf_len: 0, since_snap: 0 }
+        OrdExec { sut: C::make(hint), model: BTreeMap::new(), held: Vec::new(), next_id: 0, hint, uni, peak: 0, last_buf_len: 0, since_snap: 0 }
     }
     pub fn dup(&self) -> Option<Self> {
         Some(OrdExec {
@@ -1100,7 +1100,7 @@ pub fn profiles(thorough: bool) -> Vec<OProf> {
 
 pub const HINTS: [usize; 6] = [0, 1, 8, 9, 300, 33];
 
-/// Keys are the odd numbers 1,3,..,2u-1; probes 0..=2u.
+/// Keys are the even numbers 0,2,..,2u-2 (0 == K::default()); probes -1..=2u-1.
 pub fn gen_history(p: &OProf, is_set: bool, rng: &mut Rng) -> (usize, (i32, i32), Vec<OOp>) {
     let hint = *rng.pick(&HINTS);
     let mut ops: Vec<OOp> = Vec::with_capacity(p.len);
@@ -1135,9 +1135,9 @@ pub fn gen_history(p: &OProf, is_set: bool, rng: &mut Rng) -> (usize, (i32, i32)
         }
         let probe = |rng: &mut Rng, present: &Vec<i32>| -> i32 {
             if !present.is_empty() && rng.chance(2, 3) {
-                2 * *rng.pick(present) + 1 + rng.range(-1, 1) as i32
+                2 * *rng.pick(present) + rng.range(-1, 1) as i32
             } else {
-                rng.range(0, 2 * p.u as i64) as i32
+                rng.range(-1, 2 * p.u as i64 - 1) as i32
             }
         };
         match kind {
@@ -1178,14 +1178,15 @@ pub fn gen_history(p: &OProf, is_set: bool, rng: &mut Rng) -> (usize, (i32, i32)
                 };
                 is_in[i as usize] = true;
                 present.push(i);
-                ops.push(OOp::Ins { k: 2 * i + 1 });
+                ops.push(OOp::Ins { k: 2 * i });
             }
             1 | 2 => {
                 if present.is_empty() || (kind == 1 && rng.chance(1, 6)) {
                     // delete of an absent key (or on an empty collection) must change nothing
-                    let k = if rng.chance(1, 2) { 2 * rng.below(p.u as u64 + 1) as i32 } else { 2 * rng.below(p.u as u64) as i32 + 1 };
-                    if k % 2 == 0 || !is_in[(k / 2) as usize] {
-                        ops.push(if kind == 1 || present.is_empty() { OOp::Del { k } } else { OOp::DelH { k: -1 } });
+                    // an odd number (never a key) or a key of the universe that is not stored right now
+                    let k = if rng.chance(1, 2) { 2 * rng.below(p.u as u64 + 1) as i32 - 1 } else { 2 * rng.below(p.u as u64) as i32 };
+                    if k.rem_euclid(2) == 1 || !is_in[(k / 2) as usize] {
+                        ops.push(if kind == 1 || present.is_empty() { OOp::Del { k } } else { OOp::DelH { k: -2 } });
                         continue;
                     }
                 }
@@ -1209,11 +1210,11 @@ pub fn gen_history(p: &OProf, is_set: bool, rng: &mut Rng) -> (usize, (i32, i32)
                 let i = present.remove(pos);
                 is_in[i as usize] = false;
                 if kind == 1 {
-                    ops.push(OOp::Del { k: 2 * i + 1 });
+                    ops.push(OOp::Del { k: 2 * i });
                 } else {
                     // through the handle of first_index_less(probe) where probe designates key i:
                     // the key itself, or the gap right above it when the next key is absent
-                    let k = 2 * i + 1;
+                    let k = 2 * i;
                     let above_free = i + 1 >= p.u || !is_in[(i + 1) as usize];
                     ops.push(OOp::DelH { k: if above_free && rng.chance(1, 2) { k + 1 } else { k } });
                 }
@@ -1246,7 +1247,7 @@ pub fn gen_history(p: &OProf, is_set: bool, rng: &mut Rng) -> (usize, (i32, i32)
                 } else {
                     *rng.pick(&present)
                 };
-                ops.push(if kind == 10 { OOp::Aft { k: 2 * i + 1 } } else { OOp::Bef { k: 2 * i + 1 } });
+                ops.push(if kind == 10 { OOp::Aft { k: 2 * i } } else { OOp::Bef { k: 2 * i } });
             }
             12 => ops.push(OOp::WalkF),
             13 => ops.push(OOp::WalkB),
@@ -1257,7 +1258,7 @@ pub fn gen_history(p: &OProf, is_set: bool, rng: &mut Rng) -> (usize, (i32, i32)
     }
     ops.push(OOp::Sweep);
     ops.push(OOp::Chk);
-    (hint, (0, 2 * p.u), ops)
+    (hint, (-1, 2 * p.u - 1), ops)
 }
 
 pub fn run_history<C: OrdColl>(hint: usize, uni: (i32, i32), ops: &[OOp], mon: &OMon, rep: &mut Report, hist: u64) -> Result<(), (Fail, usize)> {
